@@ -39,7 +39,7 @@ func (m Interface) TypeConstraint() string {
 		if idx != 0 {
 			s += ", "
 		}
-		s += template_funcs.Exported(param.Name())
+		s += param.Name()
 		s += " "
 		s += param.TypeString()
 	}
@@ -56,7 +56,7 @@ func (m Interface) TypeInstantiation() string {
 		if idx != 0 {
 			s += ", "
 		}
-		s += template_funcs.Exported(param.Name())
+		s += param.Name()
 	}
 	s += "]"
 	return s
